@@ -3,7 +3,7 @@
    Models: Par/ParDefs.v (parallel.h), Par/Sched.v (legal TBB behaviours),
    Par/UnionFind.v, Par/HashTable.v (lock-free containers). *)
 From Coq Require Import List Arith Bool ZArith Permutation Sorted.
-From MV Require Import Par.Sched Par.ParDefs Par.SortModel Par.ScanModel Par.InstModel Par.ReduceSites Gen.ReduceSites Par.Containers Par.RadixModel.
+From MV Require Import Par.Sched Par.ParDefs Par.SortModel Par.ScanModel Par.InstModel Par.ReduceSites Gen.ReduceSites Par.Containers Par.RadixModel Par.RadixBuf Par.UFConc Par.HTConc Par.UFProgress.
 Import ListNotations.
 
 (* ---- stable_sort(Par, first, last, comp)  [mergeSort / mergeSortRec / mergeRec]
@@ -133,6 +133,47 @@ Example scan_hyps_satisfiable :
   map (snd (excl_scan_par 0%Z Z.add [1;2;3;4;5]%Z 100%Z (scan_ops_two_pass 5 (Node 2 Leaf (Node 3 Leaf Leaf))) (fun _ => 0%Z)))
       (seq 0 5) = [100; 101; 103; 106; 110]%Z.
 Proof. repeat split. Qed.
+
+(* exclusive_scan / inclusive_scan run IN PLACE (d_first == first: documented as
+   allowed, used in-tree by face_op.cpp, impl.cpp, quickhull.cpp).  The model has
+   ONE buffer; ScanBody reads input[i] into a temporary before it stores
+   output[i].  Schedules: legal_scan plus what TBB guarantees about the two
+   passes (an index is pre-scanned only before it is final-scanned, and
+   final-scanned once: Sched.pbf). *)
+Theorem scan_spec_inplace :
+  forall (T : Type) (identity : T) (f : T -> T -> T) (xs : list T) (init : T) (ops : list scan_op),
+    (forall a b c, f (f a b) c = f a (f b c)) ->
+    (forall a, f identity a = a) -> (forall a, f a identity = a) ->
+    legal_scan_inplace (length xs) ops = true ->
+    fst (excl_scan_inplace identity f xs init ops) = fold_left f xs init /\
+    forall p, snd (excl_scan_inplace identity f xs init ops) p =
+              if p <? length xs then fold_left f (firstn p xs) init else nth p xs identity.
+Proof.
+  intros T identity f xs init ops Ha Hl Hr HL.
+  exact (excl_scan_inplace_correct identity f Ha Hl Hr xs init ops HL).
+Qed.
+Print Assumptions scan_spec_inplace.
+
+Theorem inclusive_scan_spec_inplace :
+  forall (xs : list Z) (ops : list scan_op),
+    legal_scan_inplace (length xs) ops = true ->
+    forall p, snd (incl_scan_inplace xs ops) p =
+              if p <? length xs then fold_left Z.add (firstn (S p) xs) 0%Z else nth p xs 0%Z.
+Proof. intros xs ops HL. exact (incl_scan_inplace_correct xs ops HL). Qed.
+Print Assumptions inclusive_scan_spec_inplace.
+
+Example scan_inplace_hyps_satisfiable :
+  legal_scan_inplace 5 (scan_ops_two_pass 5 (Node 2 Leaf (Node 3 Leaf Leaf))) = true /\
+  map (snd (excl_scan_inplace 0%Z Z.add [1;2;3;4;5]%Z 100%Z (scan_ops_two_pass 5 (Node 2 Leaf (Node 3 Leaf Leaf))))) (seq 0 5)
+  = [100; 101; 103; 106; 110]%Z.
+Proof. split; reflexivity. Qed.
+
+(* the theorem rests on the read-before-write order inside the loop: a body that
+   reads input[i] after storing output[i] computes f(temp,temp) when run in place *)
+Example scan_body_read_after_write_breaks_inplace :
+  snd (ascan_range_read_after_write Z.add (seq 0 3) 0%Z (fun i => nth i [1; 2; 3]%Z 0%Z)) 2 = 0%Z /\
+  snd (ascan_range Z.add (fun temp _ => temp) true (seq 0 3) 0%Z (fun i => nth i [1; 2; 3]%Z 0%Z)) 2 = 3%Z.
+Proof. exact read_after_write_breaks_inplace. Qed.
 
 (* inclusive_scan(Par, xs, out) = std::inclusive_scan (lambda form, std::plus) *)
 Theorem inclusive_scan_spec :
@@ -266,41 +307,113 @@ Example for_each_hyps_satisfiable :
   = [40; 30; 20; 10; 0]%Z.
 Proof. split; reflexivity. Qed.
 
-(* ---- DisjointSets (src/disjoint_sets.h)
-   (1) ANY interleaving, any number of threads: every successful
-   compare-exchange of unite/findImpl (link under the (rank, smaller id) rule,
-   path halving, rank bump) preserves "each non-root's parent is strictly
-   greater in the order (rank, then smaller id)" — parent chains cannot cycle. *)
-Theorem uf_cas_step_preserves_order :
-  forall st st' : uf_state, ord_inv st -> uf_step st st' -> ord_inv st'.
-Proof. exact uf_step_preserves_order. Qed.
-Print Assumptions uf_cas_step_preserves_order.
+(* ---- the radix path at buffer level: Hist::prefixSum (with canSkip), shuffle
+   and the a/b buffer swap of LSB_radix_sort, ported loop by loop with their
+   index arithmetic (Par/RadixBuf.v), refine the list-level model used by
+   radix_sort_spec: shuffle with the prefix-summed histogram row writes exactly
+   the stable partition, and the buffer LSB_radix_sort reports (flag = inTmp)
+   holds the list-level result.  The histogram is additive and permutation
+   invariant, so any parallel_for split / combinable assignment / combine order
+   gives the same rows (histogram_any_split). *)
+Theorem radix_shuffle_refines :
+  forall (k : nat) (src : list Z) (tgt : nat -> Z),
+    map (snd (shuffle k (psum (fun b => cntb k b src)) src tgt)) (seq 0 (length src)) = radix_pass k src.
+Proof. intros k src tgt. exact (shuffle_refines_pass k src tgt). Qed.
+Print Assumptions radix_shuffle_refines.
 
-Example uf_hyps_satisfiable : ord_inv (map (fun i => (0, i)) (seq 0 5)).
-Proof. exact (ord_inv_init 5). Qed.
+Theorem radix_prefix_sum_spec :
+  forall (k : nat) (l : list Z),
+    let '(out, count, skip) := prefix_row (length l) (fun b => cntb k b l) in
+    (forall j, j < 256 -> out j = psum (fun b => cntb k b l) j) /\
+    count = psum (fun b => cntb k b l) 256 /\ skip = can_skip k l.
+Proof. intros k l. exact (prefix_row_spec k l). Qed.
+Print Assumptions radix_prefix_sum_spec.
 
-(* (2) PARTIAL w.r.t. the concurrent statement: for the code as ONE thread
-   executes it (ported word for word: findImpl with path halving, unite with
-   union by (rank, smaller id) and rank bump; compared (rank,parent)-word for
-   word with the implementation), whenever the run returns, the order invariant
-   holds and two elements have the same root exactly when they are related by
-   the equivalence closure of the united pairs.  Missing: the same conclusion
-   for concurrent runs (needs linearisation of the pending unions; the side
-   conditions of uf_step from stale thread-local reads), and that fuel n+1
-   always suffices (termination from ord_inv); concurrent runs are compared
-   with this model partition-for-partition by harness/c13_uf.cpp. *)
-Theorem uf_partition_partial :
-  forall (n : nat) (pairs : list (nat * nat)) (st : uf_state),
-    Forall (fun pr => fst pr < n /\ snd pr < n) pairs ->
-    uf_run_seq n pairs = Some st ->
+Theorem histogram_any_split :
+  forall (nbytes : nat) (l1 l2 : list Z) (k b : nat), k < nbytes ->
+    hist_merge (histogram nbytes (fun _ _ => 0) l1) (histogram nbytes (fun _ _ => 0) l2) k b
+    = histogram nbytes (fun _ _ => 0) (l1 ++ l2) k b /\
+    histogram nbytes (fun _ _ => 0) (l1 ++ l2) k b = cntb k b (l1 ++ l2) /\
+    (forall l', Permutation (l1 ++ l2) l' -> cntb k b (l1 ++ l2) = cntb k b l').
+Proof.
+  intros nbytes l1 l2 k b Hk.
+  exact (conj (histogram_merge nbytes l1 l2 k b Hk)
+        (conj (histogram_count nbytes (l1 ++ l2) (fun _ _ => 0) k b Hk) (fun l' HP => cntb_perm k b _ l' HP))).
+Qed.
+Print Assumptions histogram_any_split.
+
+Theorem lsb_radix_sort_buffers_refine :
+  forall (nbytes : nat) (l : list Z) (tmp : nat -> Z),
+    let '(a, b, t) := lsb_radix_sort_buf nbytes l tmp in
+    to_list a (length l) = fst (lsb_radix_sort nbytes l) /\ t = snd (lsb_radix_sort nbytes l).
+Proof. intros nbytes l tmp. exact (lsb_radix_sort_buf_refines nbytes l tmp). Qed.
+Print Assumptions lsb_radix_sort_buffers_refine.
+
+(* ---- DisjointSets (src/disjoint_sets.h): ANY number of threads, ANY interleaving.
+   Threads are the small-step programs of Par/UFConc.v (findImpl: load / load /
+   load / weak CAS per loop round; unite: two finds, two rank loads, strong CAS
+   link, strong CAS rank bump, the retry loops), a configuration is the shared
+   array plus all thread states, cstep lets any thread take one atomic step.
+   When every call has returned, two elements have the same root iff the
+   equivalence closure of the united pairs relates them; the (rank,id) parent
+   order holds in every reachable configuration (so no cycle can ever form). *)
+Theorem uf_partition :
+  forall (n : nat) (ths0 : list thread) (st : uf_state) (ths : list thread),
+    Forall (init_thread n) ths0 ->
+    creach (uf_init n, ths0) (st, ths) ->
+    Forall finished ths ->
     length st = n /\ ord_inv st /\
-    forall a b, a < n -> b < n -> (same st a b <-> uf_equiv n pairs a b).
-Proof. exact uf_seq_partition. Qed.
-Print Assumptions uf_partition_partial.
+    forall a b, a < n -> b < n -> (same st a b <-> uf_equiv n (calls_of ths0) a b).
+Proof. exact uf_concurrent_partition. Qed.
+Print Assumptions uf_partition.
 
 Example uf_partition_hyps_satisfiable :
-  uf_run_seq 6 [(0,1); (1,0); (2,3); (3,2); (1,2); (5,5)] = Some [(2,0); (0,0); (1,0); (0,2); (0,4); (0,5)].
-Proof. reflexivity. Qed.
+  Forall (init_thread 4) [TU 0 1 (U_find1 1 (F_top 0)); TU 1 0 (U_find1 0 (F_top 1)); TF 3 (F_top 3)] /\
+  cstep (uf_init 4, [TU 0 1 (U_find1 1 (F_top 0)); TF 3 (F_top 3)])
+        (uf_init 4, set_nth 0 (TU 0 1 (U_find1 1 (F_done 0))) [TU 0 1 (U_find1 1 (F_top 0)); TF 3 (F_top 3)]).
+Proof.
+  split.
+  - repeat constructor.
+  - exact (CS (uf_init 4) [TU 0 1 (U_find1 1 (F_top 0)); TF 3 (F_top 3)] 0 _ _ _ eq_refl
+              (TS_u _ 0 1 _ _ _ (US_f1 _ 1 _ _ _ (FS_top_root (uf_init 4) 0 0 eq_refl)))).
+Qed.
+
+(* Termination.  Sequentially (one thread): fuel n+1 always suffices, so the
+   one-thread port always returns and yields the equivalence closure. *)
+Theorem uf_sequential_terminates :
+  forall (n : nat) (pairs : list (nat * nat)),
+    Forall (fun pr => fst pr < n /\ snd pr < n) pairs ->
+    exists st, uf_run_seq n pairs = Some st /\ length st = n /\ ord_inv st /\
+               forall a b, a < n -> b < n -> (same st a b <-> uf_equiv n pairs a b).
+Proof. exact uf_seq_partition_total. Qed.
+Print Assumptions uf_sequential_terminates.
+
+(* Under interleaving: every step that changes the shared array (= every
+   successful compare-exchange: link, path halving, rank bump) strictly
+   increases the measure  Phi = (sum of ranks)*(n^2+1) + (n^2 - sum_i above(parent i))
+   and Phi is bounded (sum of ranks <= number of links, because each rank bump
+   is paid for by a link of the same thread), so in ANY execution of ANY number
+   of threads at most n*(n^2+1) + n^2 compare-exchanges succeed. *)
+Theorem uf_successful_cas_bounded :
+  forall (n : nat) (ths0 : list thread) (c : config) (k : nat),
+    Forall (init_thread n) ths0 ->
+    creach_k (uf_init n, ths0) c k -> k <= n * (n * n + 1) + n * n.
+Proof. exact uf_cas_bound. Qed.
+Print Assumptions uf_successful_cas_bounded.
+
+(* PARTIAL (lock-freedom not closed): along a parent pointer the number of
+   elements strictly above in the (rank,id) order decreases, and path halving
+   does not change it (this is what bounds one find by n rounds and gives
+   uf_sequential_terminates).  EXACT GAP: "between two array-changing steps every
+   thread takes at most L(n) own steps" is not proved; it needs a per-thread
+   potential that also covers the retry loops of unite (a strong CAS can fail
+   once on a stale word; the retried attempt is computed from the unchanged
+   array and then succeeds or returns).  With uf_successful_cas_bounded that
+   would bound the length of every execution by (n*(n^2+1)+n^2+1) * T * L(n). *)
+Theorem uf_above_decreases_partial :
+  forall (st : uf_state) (x y : nat), klt st x y -> y < length st -> above st y < above st x.
+Proof. exact above_decr. Qed.
+Print Assumptions uf_above_decreases_partial.
 
 (* ---- HashTableD::Insert (src/hashtable.h), keys only.  PARTIAL: safety for ANY
    interleaving — a claim (the strong CAS kOpen -> key by a thread that saw the
@@ -333,3 +446,48 @@ Example hash_hyps_satisfiable :
   ht_run 8 (fun k => nth k [4; 7; 4; 4] 0) 1 9 (repeat None 8) 0 [0; 1; 0; 2; 3]
   = Some ([None; None; None; None; Some 0; Some 2; Some 3; Some 1], 4).
 Proof. reflexivity. Qed.
+
+(* ---- HashTableD::Insert with values and the used_ counter: ANY number of
+   threads, ANY interleaving of the atomic steps (Full() load, strong CAS on the
+   key slot, used_.fetch_add, value store) — Par/HTConc.v.  At quiescence every
+   Insert that did not return because of Full() has its key in exactly one slot,
+   operator[] reaches that slot, and the slot holds the value of the Insert that
+   claimed it (an Insert of the same key; its own value if it claimed). *)
+Theorem hash_insert :
+  forall (m : nat) (h : nat -> nat) (step : nat) (ths0 : list hthread) (sh : hshared) (ths : list hthread),
+    0 < m -> (forall t, In t ths0 -> ts t = I_full 0) ->
+    hreach m h step (hinit m ths0) (sh, ths) ->
+    (forall t, In t ths -> exists r, ts t = I_ret r) ->
+    forall k t r, nth_error ths k = Some t -> ts t = I_ret r -> r <> RFull ->
+    exists s fuel v', s < m /\ slot (hk sh) s = Some (tk t) /\
+      ht_find m h step fuel (hk sh) (tk t) 0 = Some s /\
+      (forall s2, s2 < m -> slot (hk sh) s2 = Some (tk t) -> s2 = s) /\
+      slot (hv sh) s = Some v' /\
+      (exists k0 t0, nth_error ths k0 = Some t0 /\ tk t0 = tk t /\ tv t0 = v' /\ ts t0 = I_ret (RClaimed s)) /\
+      (r = RClaimed s -> v' = tv t).
+Proof. exact hash_insert_concurrent. Qed.
+Print Assumptions hash_insert.
+
+(* used_ accounting: in every reachable configuration used_ + (claims whose
+   fetch_add is pending) = number of claimed slots; at quiescence Entries() is
+   the number of stored keys, so Full() then means "more than half the slots" *)
+Theorem hash_used_accounting :
+  forall (m : nat) (h : nat -> nat) (step : nat) (ths0 : list hthread) (c : hconfig),
+    0 < m -> (forall t, In t ths0 -> ts t = I_full 0) ->
+    hreach m h step (hinit m ths0) c ->
+    hu (fst c) + cnt in_inc (snd c) = cnt is_some (hk (fst c)) /\
+    ((forall t, In t (snd c) -> exists r, ts t = I_ret r) -> hu (fst c) = cnt is_some (hk (fst c))).
+Proof. exact ht_used_accounting. Qed.
+Print Assumptions hash_used_accounting.
+
+(* probe sequences terminate while the table is not full (step = 1, the default):
+   a thread still probing has passed i distinct taken slots, so i < Size() as long as a slot is open *)
+Theorem hash_probe_terminates :
+  forall (m : nat) (h : nat -> nat) (step : nat) (ths0 : list hthread) (sh : hshared) (ths : list hthread),
+    step = 1 -> 0 < m -> (forall t, In t ths0 -> ts t = I_full 0) ->
+    hreach m h step (hinit m ths0) (sh, ths) ->
+    forall k t i, nth_error ths k = Some t -> (ts t = I_full i \/ ts t = I_cas i) ->
+    (exists s, s < m /\ slot (hk sh) s = None) -> i < m.
+Proof. exact ht_probe_terminates. Qed.
+Print Assumptions hash_probe_terminates.
+
